@@ -9,23 +9,6 @@ open Compass Compass.Proto
 
 abbrev C := Container Nat Int
 
-def insertByKey (x : Nat × String) : List (Nat × String) → List (Nat × String)
-  | [] => [x]
-  | y :: r => if x.1 ≤ y.1 then x :: y :: r else y :: insertByKey x r
-
-/-- canonical form of something that came out of a stable sort over `HashMap` order: inside every run
-    of consecutive items with the same sort key, order by key.  Items are `(sortKey, key, text)`. -/
-def canonRunsAux : Nat → List (Nat × Nat × String) → List String
-  | 0, _ => []
-  | _, [] => []
-  | fuel + 1, (s, k, t) :: r =>
-    let run := r.takeWhile (fun x => x.1 = s)
-    let rest := r.dropWhile (fun x => x.1 = s)
-    let sorted := ((k, t) :: run.map (·.2)).foldr insertByKey []
-    sorted.map (·.2) ++ canonRunsAux fuel rest
-
-def canonRuns (l : List (Nat × Nat × String)) : List String := canonRunsAux l.length l
-
 def optS (f : α → String) : Option α → String
   | none => "-"
   | some a => f a
@@ -35,25 +18,18 @@ def listS (xs : List String) : String :=
 
 def snapshot (u : Nat) (c : C) : String :=
   let ks := List.range u
-  let amb (i : Nat) : Bool := c.indexMultiplicity i > 1
-  let pairS (i : Nat) : String :=
-    if amb i then "amb" else optS (fun (p : Nat × Int) => s!"{p.1}:{p.2}") (c.getPair i)
-  let keysC := canonRuns (c.keys.map (fun k => ((c.getIndex k).getD 0, k, toString k)))
-  let iterS := c.iter.zipIdx.map (fun (p, i) => if amb i then "amb" else s!"{p.1}:{p.2}")
-  let vecS := c.toVec.zipIdx.map (fun (p, i) => if amb i then "amb" else s!"{p.1}:{p.2.v}:{p.2.index}")
-  let iiterS := c.indexedIter.map (fun (i, p) => if amb i then s!"{i}:amb" else s!"{i}:{p.1}:{p.2}")
-  let intoC := canonRuns (c.intoIter.map (fun e => (e.2.index, e.1, s!"{e.1}:{e.2.v}:{e.2.index}")))
+  let pairS (i : Nat) : String := optS (fun (p : Nat × Int) => s!"{p.1}:{p.2}") (c.getPair i)
   joinSp [
     "| len", toString c.len, "emp", (if c.isEmpty then "1" else "0"),
     "get", joinSp (ks.map (fun k => optS toString (c.get k))),
     "idx", joinSp (ks.map (fun k => optS toString (c.getIndex k))),
     "has", joinSp (ks.map (fun k => if c.containsKey k then "1" else "0")),
     "pair", joinSp ((List.range (c.len + 3)).map pairS),
-    "keys", listS keysC,
-    "iter", listS iterS,
-    "vec", listS vecS,
-    "iiter", listS iiterS,
-    "into", listS intoC]
+    "keys", listS (c.keys.map toString),
+    "iter", listS (c.iter.map (fun p => s!"{p.1}:{p.2}")),
+    "vec", listS (c.toVec.map (fun p => s!"{p.1}:{p.2.v}:{p.2.index}")),
+    "iiter", listS (c.indexedIter.map (fun (i, p) => s!"{i}:{p.1}:{p.2}")),
+    "into", listS (c.intoIter.map (fun e => s!"{e.1}:{e.2.v}:{e.2.index}"))]
 
 def kv : P (Nat × Int) := do
   let k ← nat; let v ← int; pure (k, v)
